@@ -76,6 +76,11 @@ func genTransfer(rt *rapid.T, o vfGenOpts, maxWrites int, maxChunks int, faultIn
 			seen[k] = true
 			if rapid.Bool().Draw(rt, "unord") {
 				cfg = append(cfg, vfAct{AtMs: 0, Side: a.Side, Kind: "setrel", SID: a.SID, Unord: true})
+			} else if o.prStreams && rapid.IntRange(0, 2).Draw(rt, "pr") == 0 {
+				// a partially reliable neighbour (its own losses are its business; the reliable
+				// streams of the association must not notice)
+				cfg = append(cfg, vfAct{AtMs: 0, Side: a.Side, Kind: "setrel", SID: a.SID, Unord: rapid.Bool().Draw(rt, "prunord"),
+					RelT: rapid.IntRange(1, 2).Draw(rt, "relt"), RelV: rapid.SampledFrom([]int{0, 0, 1, 3, 200}).Draw(rt, "relv")})
 			}
 		}
 		sc.Acts = append(cfg, sc.Acts...)
@@ -203,7 +208,7 @@ func genFlood(rt *rapid.T) vfFlood {
 func TestVF_C01(t *testing.T) {
 	vfExplore(t, "C01", "transfer", vfN(2400, 40000),
 		func(rt *rapid.T) vfE1 {
-			return genTransfer(rt, vfGenOpts{smallMTU: true, trailingShutdown: true}, 25, 1500, rapid.SampledFrom([]int{0, 10, 25, 40}).Draw(rt, "intensity"))
+			return genTransfer(rt, vfGenOpts{smallMTU: true, trailingShutdown: true, prStreams: true}, 25, 1500, rapid.SampledFrom([]int{0, 10, 25, 40}).Draw(rt, "intensity"))
 		},
 		func(sc vfE1) vfCase { return runC01(t, sc, vfEnv.Replay != "") })
 	vfExplore(t, "C01", "wrapflood", vfN(64, 800), genFlood,
